@@ -1,7 +1,9 @@
 import Lean.Data.Json
 import Driver.Proto
 import Driver.OpsClt
+import Driver.OpsXpc
 import DeeprobModel.Model.ToPcLoop
+import DeeprobModel.Model.XpcLoop
 /-
 Driver ops of the fifth wave of translated fragments (`Gen.S5…`: the explicit-stack loops of `BinaryCLT.to_pc` and
 `BinaryCLT.get_scopes`): the GENERATED loop is executed (what the current source says), printed like the model ops
@@ -12,6 +14,11 @@ Driver ops of the fifth wave of translated fragments (`Gen.S5…`: the explicit-
   {"op":"s5_scopes","scope":[v…],"pred":[i…],"cpt":…}                → the list the generated loop of `get_scopes` returns
   {"op":"s5_trace","scope":…,"pred":…,"cpt":…}                       → stack ids / last / buffer sizes after every iteration of the
                                                                        generated `to_pc` loop (until the stack is empty)
+  {"op":"s5_xpc","use_clt":b,"det":b,"part":…}                       → `welltagged=<b> stackempty=<b> <text>`: the GENERATED loop of `build_xpc`
+                                                                       (`Gen.S5buildXpcStep`) run on the `Partition` objects of the exported tree
+                                                                       (input as for the op `xpc`), `<text>` = canonical text of `pc_nodes_stack[0]`
+                                                                       (`none` when the buffer is empty), printed like the model op `xpc`
+  {"op":"s5_xpc_trace","use_clt":b,"det":b,"part":…}                 → stack ids / last / buffer size after every iteration of that loop
 -/
 open Lean Deeprob Deeprob.Driver
 
@@ -47,6 +54,32 @@ def handleStruct5 (op : String) (j : Json) : Option (Except String String) :=
             let s' := stepf s
             go f s' (s!"{s'.1.map getId};{(s'.2.1.map getId)};{s'.2.2.1.length};{s'.2.2.2.length}" :: acc)
         pure (" | ".intercalate (go (2 * PostOrder.size t + 2) ([t], none, [], []) []))
+  | "s5_xpc" => some do
+      let useClt ← jBoolD j "use_clt" true
+      let det ← jBoolD j "det" false
+      let p ← parsePart (← field j "part")
+      let st := E2EXpc.genXpcState useClt det p (2 * PostOrder.sizeR (Part.number p 0))
+      let text := match st.2.2.head? with
+        | none => "none"
+        | some x => xcText x
+      pure s!"welltagged={Part.wellTaggedB p} stackempty={st.1.isEmpty} {text}"
+  | "s5_xpc_trace" => some do
+      let useClt ← jBoolD j "use_clt" true
+      let det ← jBoolD j "det" false
+      let p ← parsePart (← field j "part")
+      let t := Part.number p 0
+      let stepf := fun (s : List (PostOrder.PTree (Part Rat)) × Option (PostOrder.PTree (Part Rat)) × List (XC Rat)) =>
+        Oblig.Struct5X.genRunX Oblig.Struct5X.isHorizP Oblig.Struct5X.rowIdsP XC.children XC.isProduct XC.isSum
+          (fun a b => (a : Rat) / (b : Rat)) XC.mkSum XC.mkProd (Oblig.Struct5X.buildLeafP useClt det) 1 s
+      let rec goX (fuel : Nat) (s : List (PostOrder.PTree (Part Rat)) × Option (PostOrder.PTree (Part Rat)) × List (XC Rat))
+          (acc : List String) : List String :=
+        match fuel with
+        | 0 => acc.reverse
+        | f+1 =>
+          if s.1.isEmpty then acc.reverse else
+          let s' := stepf s
+          goX f s' (s!"{s'.1.map PostOrder.PTree.id};{s'.2.1.map PostOrder.PTree.id};{s'.2.2.length}" :: acc)
+      pure (" | ".intercalate (goX (2 * PostOrder.sizeR t + 2) ([t], none, []) []))
   | _ => none
 
 end Deeprob.Driver
